@@ -603,9 +603,7 @@ class Models:
                     return binop("+", x.base.length, len(x.items))
                 return len(x.items)
             if isinstance(x, I.SDict):
-                if x.base is not None:
-                    raise Unsupported("len of opaque dict")
-                return len(x.d)
+                return len(x.whole("len"))
             if isinstance(x, SObj):
                 f = interp.find_class_attr(x.cls, "__len__")
                 if f is not _NOTFOUND:
@@ -1231,15 +1229,15 @@ class Models:
 
         @meth(dict, "keys")
         def _dkeys(interp, d):
-            return I._IterVal(list(d.d.keys()))
+            return I._IterVal(list(d.whole("keys").keys()))
 
         @meth(dict, "values")
         def _dvalues(interp, d):
-            return I._IterVal(list(d.d.values()))
+            return I._IterVal(list(d.whole("values").values()))
 
         @meth(dict, "items")
         def _ditems(interp, d):
-            return I._IterVal([(k, v) for k, v in d.d.items()])
+            return I._IterVal([(k, v) for k, v in d.whole("items").items()])
 
         @meth(dict, "pop")
         def _dpop(interp, d, k, *default):
@@ -1254,7 +1252,7 @@ class Models:
         @meth(dict, "update")
         def _dupdate(interp, d, other=None, **kw):
             if isinstance(other, I.SDict):
-                d.d.update(other.d)
+                d.d.update(other.whole("update from"))
             elif other is not None:
                 for k, v in interp.iterate(other):
                     d.d[k] = v
@@ -1263,10 +1261,12 @@ class Models:
         @meth(dict, "clear")
         def _dclear(interp, d):
             d.d.clear()
+            del d.sym[:]
+            d.base = None
 
         @meth(dict, "copy")
         def _dcopy(interp, d):
-            return I.SDict(d.d)
+            return I.SDict(d.whole("copy"))
 
         @meth(dict, "__contains__")
         def _dcontains(interp, d, k):
